@@ -395,6 +395,64 @@ pub fn check_rid(s: &str, acc: &mut Acc) {
     }
 }
 
+/// values overwritten in place: `x.clone_from(&b)`, assignment, `mem::swap`, `Option` / `Vec`
+/// `clone_from`, `Clone::clone`, `mem::take`-style moves - afterwards x is b in every
+/// observation (string, components), whatever x held before
+pub fn check_overwrite(a: &str, b: &str, acc: &mut Acc) {
+    acc.states += 1;
+    let (ra, rb) = match (ResourceIdentifier::new(a), ResourceIdentifier::new(b)) {
+        (Ok(x), Ok(y)) => (x, y),
+        _ => return,
+    };
+    acc.accepted += 1;
+    let parts = model_rid(b).expect("valid rid");
+    let mut results: Vec<(&str, Result<ResourceIdentifier, String>)> = vec![];
+    results.push(("clone_from", vcommon::catch(|| {
+        let mut x = ra.clone();
+        x.clone_from(&rb);
+        x
+    })));
+    results.push(("Option::clone_from", vcommon::catch(|| {
+        let mut x = Some(ra.clone());
+        x.clone_from(&Some(rb.clone()));
+        x.unwrap()
+    })));
+    results.push(("Vec::clone_from", vcommon::catch(|| {
+        let mut x = vec![ra.clone(), ra.clone()];
+        x.clone_from(&vec![rb.clone()]);
+        x.pop().unwrap()
+    })));
+    results.push(("assign", vcommon::catch(|| {
+        let mut x = ra.clone();
+        x = rb.clone();
+        x
+    })));
+    results.push(("swap", vcommon::catch(|| {
+        let mut x = ra.clone();
+        let mut y = rb.clone();
+        std::mem::swap(&mut x, &mut y);
+        x
+    })));
+    results.push(("clone-of-clone", vcommon::catch(|| rb.clone().clone())));
+    results.push(("ToOwned", vcommon::catch(|| (&rb).to_owned())));
+    for (how, got) in results {
+        acc.evaluations += 1;
+        let case = json!({"kind": "overwrite", "a": a, "b": b, "how": how});
+        match got {
+            Err(p) => acc.viol.push((format!("C16|rid|overwrite|{}|panic", how), format!("{} from {:?} to {:?} panicked: {}", how, a, b, p), case)),
+            Ok(x) => {
+                let obs = vcommon::catch(|| [x.as_str().to_string(), x.service().to_string(), x.instance().to_string(), x.type_().to_string(), x.locator().to_string(), x.to_string(), format!("{}", x == rb)]);
+                let want = [b.to_string(), parts[0].to_string(), parts[1].to_string(), parts[2].to_string(), parts[3].to_string(), b.to_string(), "true".to_string()];
+                match obs {
+                    Err(p) => acc.viol.push((format!("C16|rid|overwrite|{}|accessor-panic", how), format!("after {} from {:?} to {:?} an accessor panicked: {}", how, a, b, p), case)),
+                    Ok(o) if o != want => acc.viol.push((format!("C16|rid|overwrite|{}|stale-components", how), format!("after {} from {:?} to {:?}: (string, service, instance, type, locator, display, ==) = {:?}, expected {:?}", how, a, b, o, want), case)),
+                    Ok(_) => {}
+                }
+            }
+        }
+    }
+}
+
 pub fn check_components(c: [&str; 4], acc: &mut Acc) {
     acc.states += 1;
     acc.evaluations += 1;
@@ -638,6 +696,27 @@ pub fn run(args: &Args) -> Report {
     }
     flush(&mut report, "long_rids", acc);
 
+    // overwriting in place: all ordered pairs of rids whose components differ in length
+    {
+        let mut acc = Acc::default();
+        let mut rids = vec![];
+        for svc in ["a", "service", "s-1"] {
+            for inst in ["", "i", "instance-0"] {
+                for ty in ["t", "type", "a-long-type-name"] {
+                    for loc in ["l", "locator", "a.b.c", "x.y"] {
+                        rids.push(format!("ri.{}.{}.{}.{}", svc, inst, ty, loc));
+                    }
+                }
+            }
+        }
+        for a in &rids {
+            for b in &rids {
+                check_overwrite(a, b, &mut acc);
+            }
+        }
+        report.bound("overwrite_pairs", rids.len() * rids.len());
+        flush(&mut report, "overwrite", acc);
+    }
     report.bound("token_max_len", n);
     report.bound("token_alphabet", json!(TOKEN_ALPHABET));
     report.bound("rid_symbol_alphabet", json!(rid_symbols));
@@ -710,6 +789,7 @@ fn replay(path: &str, mut report: Report) -> Report {
     match case["kind"].as_str() {
         Some("token") => check_token(case["input"].as_str().unwrap(), &mut acc),
         Some("rid") => check_rid(case["input"].as_str().unwrap(), &mut acc),
+        Some("overwrite") => check_overwrite(case["a"].as_str().unwrap(), case["b"].as_str().unwrap(), &mut acc),
         Some("long-rid") => {
             let l: Vec<usize> = case["lens"].as_array().unwrap().iter().map(|x| x.as_u64().unwrap() as usize).collect();
             check_long_rid([l[0], l[1], l[2], l[3]], &mut acc)
